@@ -116,7 +116,7 @@ FastRational gcd(FastRational const & a, FastRational const & b)
 {
     assert(a.isInteger() and b.isInteger());
     if (a.wordPartValid() && b.wordPartValid()) {
-        return FastRational(gcd(a.num, b.num));
+        return FastRational(gcd(absVal(a.num), absVal(b.num)));
     }
     else {
         a.ensure_mpq_valid();
